@@ -311,7 +311,7 @@ def run(tier, seed):
                   "completeness: per 'None' path one exists-layer query over all 6^n layers and all inputs on the path; soundness: per 'layer' path the defining equation for all inputs on the path",
                   "n=4,5 (m=n): seeded random unconstrained operator sets with 6 symbolic entries each (64 neighbours per seed) against a seeded graph - reaches systems with a trivial kernel",
                   "all 3^n product stabilizer groups for n=4,5 (thorough: also n=6; quick n=6: 18 seeded ones) with per-qubit Pauli symbolic, against the empty graph: the largest kernels (dimension 3n)",
-                  "every graph on n<=4 vertices (quick n=5,6: ~150-200 graphs each, stratified by edge count; thorough: all 1024 / 32768) against itself with one symbolic Clifford, incl. agreement of the NATIVE search (machine-integer semantics) on a model of every leaf",
+                  "every graph on n<=4 vertices (quick n=5,6: ~150-200 graphs each, stratified by edge count; thorough: all 1024 five-vertex graphs and ~3000 six-vertex graphs, 250 per edge count) against itself with one symbolic Clifford, incl. agreement of the NATIVE search (machine-integer semantics) on a model of every leaf",
                   "all 6^5 local-Clifford layers for one class per entanglement structure of n=5 (quick: 1 seeded structure) against its own graph",
                   "gate emission: symbolic 2x2 block at every qubit position n=1..6"]
     ck.outside += ["n>=4 operator sets that are not local-Clifford images of class graphs restricted to generator subsets"]
@@ -367,14 +367,14 @@ def run(tier, seed):
     # every graph against itself (arbitrary target graphs), with native agreement
     for n in (3, 4, 5, 6):
         total = 2 ** (n * (n - 1) // 2)
-        if n <= 4 or tier == "thorough":
+        if n <= 4 or (tier == "thorough" and n == 5):
             gids = list(range(total))
         else:
             # stratified by edge count (uniform over 0..15 edges, then uniform within): dense graphs are as likely as sparse
             by = {}
             for g in range(total):
                 by.setdefault(bin(g).count("1"), []).append(g)
-            gids = sorted(set(rnd.choice(by[k]) for k in by for _ in range(14)))
+            gids = sorted(set(rnd.choice(by[k]) for k in by for _ in range(14 if tier == "quick" else 250)))
         chunk = max(1, len(gids) // 48)
         for i in range(0, len(gids), chunk):
             jobs.append(("S", (n, gids[i:i + chunk])))
